@@ -264,6 +264,24 @@ def scenario_list():
         ('tls12-ed25519', dict(ver=(3, 3), cred='ed25519', plan='small')),
         ('tls13-ecdsa384', dict(ver=(3, 4), cred='ecdsa384', plan='small')),
     ]
+    # one flavour per keyword argument of the public entry points, with a non-default value that changes the
+    # outcome (api=True: always also run through AsyncStateMachine and the blocking calls)
+    WRONG_FP = '00' * 20
+    S += [
+        ('kw-sni-mismatch-tls12', dict(ver=(3, 3), cred='rsa', sni='other.test', srv_sni='expected.test', plan='small', api=True)),
+        ('kw-sni-mismatch-tls13', dict(ver=(3, 4), cred='rsa', sni='other.test', srv_sni='expected.test', plan='small', api=True)),
+        ('kw-sni-match-tls12', dict(ver=(3, 3), cred='rsa', sni='expected.test', srv_sni='expected.test', plan='small', api=True)),
+        ('kw-reqcert-nocert-tls12', dict(ver=(3, 3), cred='rsa', reqcert=True, plan='small', api=True)),
+        ('kw-reqcert-nocert-tls13', dict(ver=(3, 4), cred='rsa', reqcert=True, plan='small', api=True)),
+        ('kw-reqcas-tls12', dict(ver=(3, 3), cred='rsa', clientcert='client-rsa', reqcas=True,
+                                 cs=dict(keyExchangeNames=['rsa'], cipherNames=['aes128']), plan='small', api=True)),
+        ('kw-npn-tls12', dict(ver=(3, 3), cred='rsa', npn=True, plan='small', api=True)),
+        ('kw-client-checker-reject', dict(ver=(3, 3), cred='rsa', cli_checker=WRONG_FP, plan='small', api=True)),
+        ('kw-server-checker-reject', dict(ver=(3, 4), cred='rsa', clientcert='client-rsa', srv_checker=WRONG_FP, plan='small', api=True)),
+        ('kw-srp-wrong-password', dict(ver=(3, 3), kind='srp', srp_password='wrong', plan='small', api=True)),
+        ('kw-anon-tls10', dict(ver=(3, 1), kind='anon', plan='small', api=True)),
+        ('kw-alpn-mismatch-tls13', dict(ver=(3, 4), cred='rsa', alpn='mismatch', plan='small', api=True)),
+    ]
     for n, d in S:
         d['plan'] = plans[d['plan']]
         d['name'] = n
@@ -293,39 +311,71 @@ def _mk_settings(scn, side):
     return settings(minv=ver, maxv=ver, **kw)
 
 
-def _hs_generators(scn, client, server, carry):
-    """Returns (client handshake generator, server handshake generator)."""
-    ckw = dict(settings=_mk_settings(scn, 'client'), async_=True)
+def _hs_kwargs(scn, carry):
+    """(client kind, client positional args, client kwargs, server kwargs) -- the SAME for every API style"""
+    ckw = dict(settings=_mk_settings(scn, 'client'))
     skw = dict(settings=_mk_settings(scn, 'server'))
     kind = scn.get('kind', 'cert')
+    cargs = ()
     if scn.get('sni'):
-        ckw['serverName'] = 'example.test'
+        ckw['serverName'] = scn['sni'] if isinstance(scn['sni'], str) else 'example.test'
+    if scn.get('srv_sni'):
+        skw['sni'] = scn['srv_sni']
     if carry.get('session') is not None:
         ckw['session'] = carry['session']
     if scn.get('resume') == 'id':
         skw['sessionCache'] = carry.setdefault('cache', SessionCache())
+    if scn.get('cli_checker'):
+        from tlslite.checker import Checker
+        ckw['checker'] = Checker(x509Fingerprint=scn['cli_checker'])
+    if scn.get('srv_checker'):
+        from tlslite.checker import Checker
+        skw['checker'] = Checker(x509Fingerprint=scn['srv_checker'])
     if kind == 'cert':
         if scn.get('alpn'):
-            ckw['alpn'] = [b'h2', b'http/1.1']
+            ckw['alpn'] = [b'h2', b'http/1.1'] if scn['alpn'] != 'mismatch' else [b'xx']
             skw['alpn'] = [b'http/1.1', b'spdy']
+        if scn.get('npn'):
+            ckw['nextProtos'] = [b'http/1.1', b'spdy/3']
+            skw['nextProtos'] = [b'spdy/3', b'http/1.1']
         if scn.get('clientcert'):
             ckw['certChain'], ckw['privateKey'] = creds(scn['clientcert'])
             skw['reqCert'] = True
+        if scn.get('reqcert'):
+            skw['reqCert'] = True
+        if scn.get('reqcas'):
+            skw['reqCAs'] = [bytearray(b'\x30\x0f\x31\x0d\x30\x0b\x06\x03\x55\x04\x03\x0c\x04test')]
         skw.update(_srv_creds(scn['cred']))
-        cg = client.handshakeClientCert(**ckw)
     elif kind == 'anon':
         skw['anon'] = True
-        cg = client.handshakeClientAnonymous(**ckw)
     else:
         skw['verifierDB'] = _verifier_db()
         skw.update(_srv_creds('rsa'))
-        cg = client.handshakeClientSRP('test', 'password', **ckw)
-    return cg, skw
+        cargs = ('test', scn.get('srp_password', 'password'))
+    return kind, cargs, ckw, skw
+
+
+def _client_hs(client, kind, cargs, ckw, async_):
+    kw = dict(ckw)
+    if async_:
+        kw['async_'] = True
+    if kind == 'cert':
+        return client.handshakeClientCert(**kw)
+    if kind == 'anon':
+        return client.handshakeClientAnonymous(**kw)
+    return client.handshakeClientSRP(*cargs, **kw)
+
+
+def _hs_generators(scn, client, server, carry):
+    """Returns (client handshake generator, server keyword arguments)."""
+    kind, cargs, ckw, skw = _hs_kwargs(scn, carry)
+    return _client_hs(client, kind, cargs, ckw, True), skw
 
 
 def _params(conn):
     s = conn.session
-    out = dict(version=tuple(conn.version), closed=bool(conn.closed), resumed=bool(conn.resumed))
+    out = dict(version=tuple(conn.version), closed=bool(conn.closed), resumed=bool(conn.resumed),
+               next_proto=repr(getattr(conn, 'next_proto', None)))
     if s is not None:
         out.update(cipherSuite=s.cipherSuite, srp=repr(s.srpUsername), sni=repr(s.serverName),
                    etm=bool(s.encryptThenMAC), ems=bool(s.extendedMasterSecret), appProto=repr(s.appProto),
@@ -338,6 +388,26 @@ def _params(conn):
 def _secret(conn):
     s = conn.session
     return None if s is None else hashlib.sha256(bytes(s.masterSecret)).hexdigest()[:16]
+
+
+def certreq_digest(stream):
+    """sha256 of the first plaintext CertificateRequest (handshake type 13) in a TLS <= 1.2 server byte stream
+    (records up to the first ChangeCipherSpec), None if there is none.  Makes reqCAs / reqCert observable."""
+    hs = bytearray()
+    pos = 0
+    while pos + 5 <= len(stream):
+        t, ln = stream[pos], (stream[pos + 3] << 8) | stream[pos + 4]
+        if t != 22 or pos + 5 + ln > len(stream):
+            break
+        hs += stream[pos + 5:pos + 5 + ln]
+        pos += 5 + ln
+    pos = 0
+    while pos + 4 <= len(hs):
+        n = int.from_bytes(hs[pos + 1:pos + 4], 'big')
+        if hs[pos] == 13:
+            return hashlib.sha256(bytes(hs[pos:pos + 4 + n])).hexdigest()[:16]
+        pos += 4 + n
+    return None
 
 
 def payload(i, n):
@@ -458,6 +528,7 @@ def run_connection(scn, sched, epr, carry, idx):
         out['hs'] = (('AsmConnectEvents', out['asm_connect_events'][0]), ('AsmConnectEvents', out['asm_connect_events'][1]))
     out['params'] = (_params(client), _params(server))
     out['secret'] = (_secret(client), _secret(server))
+    out['certreq'] = None if rf else certreq_digest(b''.join(ssock.sent_log)[:65536])
     ok = out['hs'] == (('ok',), ('ok',))
     xfers = []
     if ok:
@@ -614,6 +685,7 @@ class ChunkSock(object):
         self.sent = hashlib.sha256()
         self.sent_len = 0
         self.n_sendall = 0
+        self.first = bytearray()
 
     def recv(self, n):
         k = n if self.rs is None else max(1, min(n, next(self.rs, n) or n))
@@ -624,6 +696,8 @@ class ChunkSock(object):
         k = len(data) if self.ss is None else max(1, min(len(data), next(self.ss, len(data)) or len(data)))
         sent = self.real.send(data[:k])
         self.sent.update(data[:sent])
+        if len(self.first) < 65536:
+            self.first += data[:sent]
         self.sent_len += sent
         return sent
 
@@ -670,18 +744,7 @@ def run_connection_blocking(scn, sched, epr, carry, idx):
     csock, ssock = ChunkSock(a, sched, 'c%d' % idx), ChunkSock(b, sched, 's%d' % idx)
     client, server = TLSConnection(csock), TLSConnection(ssock)
     tc, ts = 'client%d' % idx, 'server%d' % idx
-    kind = scn.get('kind', 'cert')
-    cg, skw = _hs_generators(scn, client, server, carry)     # generator is not used; kwargs rebuilt below
-    cg.close()
-    ckw = dict(settings=_mk_settings(scn, 'client'))
-    if scn.get('sni'):
-        ckw['serverName'] = 'example.test'
-    if carry.get('session') is not None:
-        ckw['session'] = carry['session']
-    if kind == 'cert' and scn.get('alpn'):
-        ckw['alpn'] = [b'h2', b'http/1.1']
-    if kind == 'cert' and scn.get('clientcert'):
-        ckw['certChain'], ckw['privateKey'] = creds(scn['clientcert'])
+    kind, cargs, ckw, skw = _hs_kwargs(scn, carry)
     res = {'c': {}, 's': {}}
     plan = scn['plan']
 
@@ -736,12 +799,7 @@ def run_connection_blocking(scn, sched, epr, carry, idx):
             me['close'] = ('exc', e)
 
     def chs():
-        if kind == 'cert':
-            client.handshakeClientCert(**ckw)
-        elif kind == 'anon':
-            client.handshakeClientAnonymous(**ckw)
-        else:
-            client.handshakeClientSRP('test', 'password', **ckw)
+        _client_hs(client, kind, cargs, ckw, False)
 
     t1 = threading.Thread(target=body, args=('c', client, tc, chs))
     t2 = threading.Thread(target=body, args=('s', server, ts, lambda: server.handshakeServer(**skw)))
@@ -755,6 +813,7 @@ def run_connection_blocking(scn, sched, epr, carry, idx):
                  classify(res['s'].get('hs', ('exc', Deadlock('thread hung')))))
     out['params'] = (res['c'].get('params'), res['s'].get('params'))
     out['secret'] = (res['c'].get('secret'), res['s'].get('secret'))
+    out['certreq'] = certreq_digest(bytes(ssock.first))
     xfers = []
     ok = out['hs'] == (('ok',), ('ok',))
     if ok:
@@ -794,7 +853,7 @@ def run_connection_blocking(scn, sched, epr, carry, idx):
 
 
 # ------------------------------------------------------------------------------------------
-COMPARE_ALWAYS = ('hs', 'params', 'xfers', 'close', 'closed_flags')
+COMPARE_ALWAYS = ('hs', 'params', 'certreq', 'xfers', 'close', 'closed_flags')
 COMPARE_IF_DETERMINISTIC = ('secret', 'wire', 'wire_len')
 
 
@@ -818,8 +877,11 @@ def diff_outcomes(base, other, deterministic, reframed=False, api='gen'):
         keys = list(COMPARE_ALWAYS)
         if deterministic:
             keys.append('secret')
-            if not reframed:
+            # on real sockets what is sent after the peer failed and closed is a TCP race: wire only for completed handshakes
+            if not reframed and not (api == 'blocking' and b.get('hs') != (('ok',), ('ok',))):
                 keys += ['wire', 'wire_len']
+        if reframed and 'certreq' in keys:
+            keys.remove('certreq')
         for k in keys:
             if b.get(k) != o.get(k):
                 d.append((k, i, b.get(k), o.get(k)))
@@ -1085,3 +1147,257 @@ def worker_reply(task):
     except Exception:  # noqa
         import traceback
         return dict(name=name, error=traceback.format_exc())
+
+
+# ------------------------------------------------------------------------------------------
+# PER-CALL chunking independence: what each individual read()/readAsync()/poll call returns (and
+# the state it leaves) must not depend on how the transport chunked the bytes that had arrived.
+# The server (P) sends a history of post-handshake items completely, then the client (R) performs
+# a fixed list of calls; several stages.  Compared per call across recv schedules and API styles,
+# and with the Coq model of the read loop (Model/C14_ReadLoop.v) given only the message sequence.
+class WouldHang(Exception):
+    """blocking call on a socket that has nothing left: in real life it would wait forever"""
+
+
+class HangSock(MemSock2):
+    """blocking-socket view of the pipe: never reports would-block; empty pipe = would wait forever"""
+    hang = False
+
+    def recv(self, n):
+        if self.hang and not self.inbuf and not self.peer_closed:
+            raise WouldHang()
+        return MemSock2.recv(self, n)
+
+
+def call_histories(rng, n_random):
+    P0 = (None, 0)
+    H = [
+        dict(name='tls13-tickets-then-data', ver=(3, 4), tickets=2,
+             stages=[([('data', 10)], [P0, P0, P0, P0, (None, 1)])]),
+        dict(name='tls13-tickets-alone-then-data', ver=(3, 4), tickets=3,
+             stages=[([], [P0, P0, P0, P0]), ([('data', 4), ('data', 6)], [P0, (3, 0), P0, P0, P0])]),
+        dict(name='tls13-keyupdate-data', ver=(3, 4), tickets=0,
+             stages=[([('keyupdate',), ('data', 5), ('keyupdate',), ('keyupdate',), ('data', 2)], [P0, P0, P0])]),
+        dict(name='tls13-tickets-keyupdate-mixed', ver=(3, 4), tickets=2,
+             stages=[([('data', 3), ('keyupdate',), ('data', 4)], [P0, P0, P0, (2, 1), (None, 5), P0])]),
+        dict(name='tls13-big-data', ver=(3, 4), tickets=1,
+             stages=[([('data', 20000), ('data', 1)], [P0, (100, 1), (None, 0), (5, 17000), (None, 0), (None, 0), P0])]),
+        dict(name='tls12-heartbeat-data-close', ver=(3, 3), tickets=0,
+             stages=[([('heartbeat',), ('data', 7), ('heartbeat',), ('data', 2), ('close',)],
+                      [P0, (3, 1), (None, 1), P0, P0, (None, 1)])]),
+        dict(name='tls13-pha-data', ver=(3, 4), tickets=1, clientcert=True,
+             stages=[([('pha',), ('data', 6)], [P0, P0, P0, P0])]),
+        dict(name='tls13-heartbeat-tickets', ver=(3, 4), tickets=2,
+             stages=[([('heartbeat',), ('data', 3), ('close',)], [P0, P0, P0, P0, P0])]),
+        dict(name='tls10-data-close', ver=(3, 1), tickets=0,
+             stages=[([('data', 40), ('data', 2)], [(10, 1), P0, (None, 40)]), ([('close',)], [P0, P0])]),
+        dict(name='tls13-asm-reads', ver=(3, 4), tickets=2, api='asm',
+             stages=[([('data', 10), ('keyupdate',), ('data', 20000)], [(16384, 1)] * 5)]),
+        dict(name='tls12-asm-reads', ver=(3, 3), tickets=0, api='asm',
+             stages=[([('data', 10), ('heartbeat',), ('data', 5)], [(16384, 1)] * 3)]),
+    ]
+    for i in range(n_random):
+        ver = rng.choice([(3, 4), (3, 4), (3, 3)])
+        stages = []
+        for _ in range(rng.choice([1, 2, 3])):
+            acts = []
+            for _ in range(rng.randrange(0, 5)):
+                k = rng.choice(['data', 'data', 'keyupdate', 'heartbeat'] if ver == (3, 4) else ['data', 'data', 'heartbeat'])
+                acts.append(('data', rng.choice([1, 2, 5, 30, 300])) if k == 'data' else (k,))
+            calls = [rng.choice([P0, P0, P0, (None, 1), (rng.choice([1, 3, 10]), rng.choice([0, 1, 2])), (None, rng.choice([2, 6]))])
+                     for _ in range(rng.randrange(1, 6))]
+            stages.append((acts, calls))
+        if rng.random() < 0.4:
+            stages.append(([('close',)], [P0, P0]))
+        H.append(dict(name='random-%d' % i, ver=ver, tickets=rng.choice([0, 1, 2, 3]) if ver == (3, 4) else 0,
+                      stages=stages))
+    return H
+
+
+def history_messages(h):
+    """what R's read loop sees, per stage (model input)"""
+    out = []
+    for si, (acts, calls) in enumerate(h['stages']):
+        ms = [('T',)] * h['tickets'] if si == 0 else []
+        for ai, a in enumerate(acts):
+            if a[0] == 'data':
+                d = payload(si * 16 + ai, a[1])
+                if h['ver'] <= (3, 1) and len(d) > 1:
+                    # 1/n-1 record splitting of CBC suites in SSLv3/TLS 1.0 (BEAST countermeasure)
+                    ms.append(('D', d[:1]))
+                    d = d[1:]
+                for i in range(0, len(d), 16384):
+                    ms.append(('D', d[i:i + 16384]))
+            elif a[0] == 'keyupdate':
+                ms.append(('K',))
+            elif a[0] == 'pha':
+                ms.append(('P',))
+            elif a[0] == 'close':
+                ms.append(('C',))
+        out.append(ms)
+    return out
+
+
+def run_calltrace(h, sched, seed):
+    """Returns the per-call trace [(stage, call index, result, n_tickets, closed)]."""
+    from tlslite.constants import KeyUpdateMessageType
+    api = sched.get('api') or h.get('api') or 'gen'
+    epr = EpRandom(seed).install()
+    clock = FakeClock().install()
+    try:
+        csock, ssock = HangSock('c2s'), HangSock('s2c')
+        csock.peer, ssock.peer = ssock, csock
+        client, server = TLSConnection(csock), TLSConnection(ssock)
+        ver = h['ver']
+        cset = settings(minv=ver, maxv=ver)
+        sset = settings(minv=ver, maxv=ver)
+        if h['tickets']:
+            sset.ticketKeys = [b'\x33' * 32]
+            sset.ticket_count = h['tickets']
+        else:
+            sset.ticket_count = 0
+        sset.heartbeat_response_callback = lambda msg: None      # allows P to send heartbeat requests
+        chain, key = creds('rsa')
+        ckw = dict(settings=cset, async_=True)
+        if h.get('clientcert'):
+            ckw['certChain'], ckw['privateKey'] = creds('client-rsa')
+        r = drive2([tagged(client.handshakeClientCert(**ckw), 'client', epr),
+                    tagged(server.handshakeServerAsync(certChain=chain, privateKey=key, settings=sset), 'server', epr)])
+        if (classify(r[0]), classify(r[1])) != (('ok',), ('ok',)):
+            return [('handshake', classify(r[0]), classify(r[1]))]
+        R, P, rsock = client, server, csock
+        rsock.recv_sizes = _sizes(sched.get('recv'), '%s/r' % sched.get('seed'))
+        rsock.block_recv = _blocks(sched.get('block_recv'), '%s/br' % sched.get('seed'))
+        rsock.send_sizes = _sizes(sched.get('send'), '%s/s' % sched.get('seed'))
+        rsock.block_send = _blocks(sched.get('block_send'), '%s/bs' % sched.get('seed'))
+        trace = []
+        m = _ASM(R) if api == 'asm' else None
+        dead = False
+        for si, (acts, calls) in enumerate(h['stages']):
+            # P sends the whole stage
+            def send_all():
+                for ai, a in enumerate(acts):
+                    if a[0] == 'data':
+                        for x in P.writeAsync(payload(si * 16 + ai, a[1])):
+                            yield x
+                    elif a[0] == 'keyupdate':
+                        for x in P.send_keyupdate_request(KeyUpdateMessageType.update_requested):
+                            yield x
+                    elif a[0] == 'heartbeat':
+                        for x in P.write_heartbeat(bytearray(b'hb'), 16):
+                            yield x
+                    elif a[0] == 'pha':
+                        for x in P.request_post_handshake_auth():
+                            yield x
+                    elif a[0] == 'close':
+                        for x in P.closeAsync():
+                            yield x
+            pr = drive2([tagged(send_all(), 'server', epr)])
+            if pr[0][0] != 'ok':
+                trace.append((si, 'peer', classify(pr[0])))
+                break
+            for ci, (mx, mn) in enumerate(calls):
+                res = None
+                epr.cur = 'client'
+                try:
+                    if api == 'blocking':
+                        rsock.hang = True
+                        try:
+                            res = ('bytes', bytes(R.read(mx, mn)))
+                        except WouldHang:
+                            res = ('pending',)
+                            dead = True
+                        finally:
+                            rsock.hang = False
+                    elif api == 'asm':
+                        n0 = len(m.reads)
+                        steps = 0
+                        while len(m.reads) == n0:
+                            if m.result is not None and m.wantsWriteEvent():
+                                m.inWriteEvent()
+                            else:
+                                m.inReadEvent()
+                            steps += 1
+                            if len(m.reads) == n0 and m.result == 0 and not rsock.inbuf:
+                                res = ('pending',)
+                                break
+                            if steps > 2000000:
+                                raise Deadlock('asm read makes no progress')
+                        if res is None:
+                            res = ('bytes', m.reads[-1])
+                    else:
+                        g = R.readAsync(mx, mn)
+                        steps = 0
+                        for v in g:
+                            if isinstance(v, int):
+                                steps += 1
+                                if v == 0 and not rsock.inbuf:
+                                    res = ('pending',)
+                                    g.close()
+                                    break
+                                if steps > 2000000:
+                                    raise Deadlock('read makes no progress')
+                            else:
+                                res = ('bytes', bytes(v))
+                                break
+                except Exception as e:  # noqa
+                    res = ('exc',) + classify(('exc', e))
+                    dead = True
+                finally:
+                    epr.cur = 'main'
+                trace.append((si, ci, res, len(R.tickets or []), bool(R.closed)))
+                if dead:
+                    break
+            if dead:
+                break
+        return trace
+    finally:
+        clock.uninstall()
+        epr.uninstall()
+
+
+def calltrace_schedules(rng, n_random):
+    S = [dict(recv='one'), dict(recv='small'), dict(recv='rand'), dict(recv='one', block_recv=1), dict(block_recv=2),
+         dict(recv='rand', block_recv='rand', send='small', block_send=1),
+         dict(api='blocking'), dict(api='blocking', recv='one'), dict(api='blocking', recv='rand')]
+    for _ in range(n_random):
+        S.append(dict(recv=rng.choice(['one', 'small', 'rand']), block_recv=rng.choice([0, 1, 'rand']),
+                      send=rng.choice(['all', 'small']), block_send=rng.choice([0, 1])))
+    for s in S:
+        s['seed'] = rng.getrandbits(32)
+    return S
+
+
+def worker_calltrace(task):
+    h, scheds, seed = task
+    try:
+        base = run_calltrace(h, {}, seed)
+        results = []
+        for s in scheds:
+            if h.get('api') == 'asm' and s.get('api') == 'blocking':
+                continue
+            try:
+                t = run_calltrace(h, s, seed)
+                if s.get('api') == 'blocking':
+                    # up to and including the first call that would wait forever
+                    cut = next((i for i, x in enumerate(base) if len(x) > 2 and x[2] == ('pending',)), len(base) - 1)
+                    ref = base[:cut + 1]
+                    if ref and t and len(ref) == len(t) and len(ref[-1]) > 2 and ref[-1][2] == ('pending',):
+                        # the blocking call that would wait forever was aborted by the harness: the
+                        # connection is shut down by read()'s handler, only the verdict is compared
+                        ref = ref[:-1] + [ref[-1][:4] + (t[-1][4],)]
+                else:
+                    ref = base
+                d = []
+                if t != ref:
+                    i = next((i for i in range(min(len(t), len(ref))) if t[i] != ref[i]), min(len(t), len(ref)))
+                    d = [('call-%d' % i, 0, ref[i] if i < len(ref) else None, t[i] if i < len(t) else None)]
+                results.append((s, d, t if d else None, None))
+            except Exception:  # noqa
+                import traceback
+                results.append((s, [('harness-exception', 0, None, traceback.format_exc()[-800:])], None, None))
+        return dict(name='calls-' + h['name'], seed=seed, deterministic=False, base=[{'hs': (('ok',), ('ok',))}], results=results,
+                    base_diff=[], calltrace=h, base_trace=base)
+    except Exception:  # noqa
+        import traceback
+        return dict(name='calls-' + h['name'], error=traceback.format_exc())
